@@ -316,4 +316,36 @@ def unlink_queued(ctx, prog):
 for _f, _id in ((tyg_strong, "C12.TYG-strong"), (pdom_breaker, "C12.PDOM-breaker"), (unlink_queued, "C12.SIGN-unlink-queued")):
     _f.rule_id = _id
 
-RULES = [tyg_strong, pdom_breaker, unlink_queued]
+OWNING_STATE = ("alloc::rc::Rc<incremental::state::State", "incremental::public::IncrState")
+
+
+def tyg_captures(ctx, prog):
+    """Closures are objects too: a closure that is handed to the user or stored in a node and owns the State
+    (captures an Rc<State> / IncrState by value) makes the State own itself through all_observers -> node ->
+    closure. No closure of the analysed crates may own the State; borrowing it (`&State`) or holding a WeakState
+    is fine."""
+    R = "C12.TYG-captures"
+    ctx.rule(R, "no closure captures an owning handle of the State (Rc<State>, IncrState) by value; WeakState and "
+                "borrows are allowed")
+    n = 0
+    for F in prog.fns.values():
+        if not F.is_closure:
+            continue
+        for c in F.j.get("captures") or []:
+            n += 1
+            ty = c.get("ty", "")
+            if c.get("by_ref") or ty.startswith("&"):
+                continue
+            if any(o in ty for o in OWNING_STATE):
+                ctx.site(R, F, "captures %s: %s" % (c.get("name"), ty))
+                ctx.fail(R, "capture:%s:%s" % (F.short, c.get("name")), "closure %s captures `%s: %s` by value: if the "
+                         "closure ends up in a node (or is kept by the user inside one) the State owns itself and is "
+                         "never destroyed" % (F.short, c.get("name"), ty), fn=F)
+    ctx.site(R, "closures", "%d captures inspected" % n)
+    ctx.ok(R, "no-owning-capture")
+    ctx.floor(R, n, 150)
+
+
+tyg_captures.rule_id = "C12.TYG-captures"
+
+RULES = [tyg_strong, pdom_breaker, unlink_queued, tyg_captures]
